@@ -490,6 +490,11 @@ def twin_ops(run, final=False):
         for hi in run.houses:
             ops.append(("new", "Framer", "f", hi, ()))
     ops.append(("new", "Tasker", "f", None, ()))
+    # the house namespace is global: whichever house's registries are current, a duplicate house name is rejected and
+    # automatically named houses are distinct
+    if len(run.houses) < 4:
+        for n in ("h", "g", None):
+            ops.append(("new", "House", n, None, ()))
     return ops
 
 
@@ -813,17 +818,35 @@ def run():
     import gc
     gc.collect()
     gc.freeze()          # keep forked workers from copying the parent's heap page by page
-    pre = Run(FOCUS_PRELOAD)
-    if pre.diverged:
-        raise core.BrokenCheck("focused preload diverges: %r" % (pre.diverged,))
+    preload_part = core.Part()
+
+    def preload_ok(family, preload):
+        """The preloads are real operations compared with the reference: a divergence there is a finding about the code
+        under test (reported with the step that diverged), and that family is then not explored further."""
+        for k in range(1, len(preload) + 1):
+            r = Run(preload[:k])
+            preload_part.traces += 1
+            if r.diverged:
+                group, what = r.diverged
+                preload_part.outcome("diverged:" + group)
+                preload_part.violation(group, hist_str(preload[:k]), "%s family, preload step %d: %s" % (family, k, what),
+                                       dict(ops=[list(o) for o in preload[:k]], nops=k, readable=hist_str(preload[:k]), divergence=what, family=family,
+                                            how="start from House.Clear(); ClearRegistries(); Frame.Clear(); apply the calls in order"))
+                return None
+        return r
+
+    items = [("gen", f) for f in firsts]
     ffirsts = []
-    for op in focused_ops(pre):
-        ffirsts.extend(expand_random(FOCUS_PRELOAD, op, counters))
-    twin = Run(TWIN_PRELOAD)
-    if twin.diverged:
-        raise core.BrokenCheck("twin preload diverges: %r" % (twin.diverged,))
-    items = [("gen", f) for f in firsts] + [("focus", f) for f in ffirsts] + [("twin", op) for op in twin_ops(twin)]
-    parts = core.pmap(work, items, procs=min(core.NPROC, 8) if QUICK else None)
+    pre = preload_ok("focused", FOCUS_PRELOAD)
+    if pre is not None:
+        for op in focused_ops(pre):
+            ffirsts.extend(expand_random(FOCUS_PRELOAD, op, counters))
+        items += [("focus", f) for f in ffirsts]
+    twin = preload_ok("twin", TWIN_PRELOAD)
+    if twin is not None:
+        for op in twin_ops(twin):
+            items += [("twin", f) for f in expand_random(TWIN_PRELOAD, op, counters)]
+    parts = [preload_part] + core.pmap(work, items, procs=min(core.NPROC, 8) if QUICK else None)
     best = {}
     for si, p in enumerate(parts):
         for v in p.violations:
@@ -879,7 +902,7 @@ def run():
              "registries (contents by instance identity and which registry object is current) compared with the reference after every operation.  "
              "Second family: from 'house h current, owning tasker x, log x, framer f' every history of %d operations over {per-class Clear, ClearRegistries, "
              "assignRegistries of the same house, Framer.clone, explicit-duplicate and automatic creations}.  Third family: two houses each holding a live framer f; every history of %d operations over {assignRegistries of either house, prune() of either framer, "
-             "explicit duplicate Framer/Tasker f in either house}.  Plus %d generated programs built through Builder, "
+             "explicit duplicate Framer/Tasker f in either house, House('h'), House('g'), House()}.  Plus %d generated programs built through Builder, "
              "plus %d clone-chain plans (2-3 root framers each cloning the same chain of 1..%d moot framers, insular or equally tagged; the build must succeed and all "
              "framer names of the house be distinct and registered to their own instance), plus %d rear/raze sequences on a framer that already owns 0-3 build-time insular "
              "clones of the same moot (every generated tag / name must be fresh, no CloneError, live framers registered under distinct names)."
